@@ -516,7 +516,7 @@ c14 = wrap(_c14)
 # ---------------------------------------------------------------------------
 # C20 — failures of user callables surface unchanged and leave nothing behind
 
-EXC_TYPES = [TypeError, IndexError, ValueError, AssertionError, ZeroDivisionError, KeyError]
+EXC_TYPES = [TypeError, IndexError, ValueError, AssertionError, ZeroDivisionError, KeyError, StopIteration, ArithmeticError, LookupError]
 
 
 class UserError(RuntimeError):
